@@ -106,6 +106,8 @@ def judge(cfg, idx, obs, flags=None):
                 break
             if flags is not None and cfg.get("bet") == "agrapa" and j > 0 and (lf == 0 or lf >= (1 / m) * F(1, 2)):
                 flags.add("agrapa_clip_active")
+    if obs.get("u_late_differs"):
+        out.append((f"C13|{mk}|bound-installed-after-construction", f"{mk}: a test object whose u is assigned after construction (as the audit code does) gives a different history than one built with that u: something derived from u went stale"))
     h = obs["hist"]
     if h is not None and any(v == v and v < 0 for v in h):
         out.append((f"C13|{mk}|negative-history-entry", f"{mk}: history entry {[v for v in h if v == v and v < 0][0]} < 0 (a factor went negative)"))
